@@ -846,6 +846,7 @@ fn absorb(out: &mut WorkerOut, sc: &AisleScenario, st: &AisleStats, viol: &[Viol
             sched: None,
             aisle: Some(sc.clone()),
             depth: None,
+        storm: None,
             violations: viol.to_vec(),
             minimised: false,
             notes: vec![],
